@@ -211,6 +211,10 @@ if not HAVE_NUMBA:
         array([0, 3, 4]...)
         """
         y = y.ravel()
+        if y.dtype.kind in "iub":
+            # differences of narrow integer types (int8, int16, ...)
+            # can wrap around
+            y = y.astype(float)
         # example: [1, 2, 3, 4, 4, -2, -2, -2]
 
         if y.size == 1:
